@@ -173,12 +173,19 @@ fn update_file_content_inner(file_name: &str, content: &str) {
         let mut resolver = WasmModuleResolver::new();
         parse_and_bind(&mut resolver, &file_name, content)
     });
-    if let Ok(f) = res {
-        BUNDLER.with(|b| {
-            let mut b = b.borrow_mut();
-            b.files.insert(file_name, f);
-        })
-    }
+    BUNDLER.with(|b| {
+        let mut b = b.borrow_mut();
+        match res {
+            Ok(f) => {
+                b.files.insert(file_name, f);
+            }
+            // the previous parse no longer describes the file: drop it, so that the next build
+            // reads the file again and reports it the way a first build would
+            Err(_) => {
+                b.files.remove(&file_name);
+            }
+        }
+    })
 }
 
 // ---------------------------------------------------------------------------------------------
